@@ -205,6 +205,13 @@ func newFlowFn(p *Prog, pkg *packages.Package, name string, node ast.Node, typ *
 						}
 					}
 				}
+			case *ast.ReturnStmt:
+				// return &x: x leaves with the function, nothing else can write it before
+				for _, r := range m.Results {
+					if u, ok := ast.Unparen(r).(*ast.UnaryExpr); ok && u.Op == token.AND {
+						f.addrArgs[u] = true
+					}
+				}
 			case *ast.UnaryExpr:
 				if m.Op == token.AND && !f.addrArgs[m] {
 					if o := identObj(info, m.X); o != nil {
@@ -537,6 +544,10 @@ func (x *Exec) block(b *cfg.Block, s St) {
 func (x *Exec) node(n ast.Node, s St) []St {
 	if d, ok := n.(*ast.DeferStmt); ok {
 		if idx, ok := x.Fn.deferIdx[d]; ok {
+			// let the rule see the registration (arguments are evaluated now)
+			if outs := x.I.Node(x, d, s); len(outs) == 1 {
+				s = outs[0]
+			}
 			cur := s.Get("defers")
 			// a defer statement inside a loop is recorded once (finite state)
 			for _, d := range strings.Split(cur, ",") {
